@@ -290,11 +290,14 @@ OpIntoIter(tb, t) ==
             sit |-> TrailSit(tb, w)]
 
 (* drain(): len = 0, free = data.len(); Drain::next / Drop for Drain mark the
-   slots up to the last element FREE and then stop *)
+   slots up to the last element FREE and then stop.
+   (Variant HT_VARIANT_drain_all, NOT the present code: Drop for Drain marks all
+   remaining slots FREE.  For use when raw.rs is changed that way.) *)
+DrainAll == "HT_VARIANT_drain_all" \in DOMAIN IOEnv
 OpDrain(tb, t) ==
   LET w == Walk(tb)
   IN  IF w.short THEN HangEv("drain", t, 0, 0, {}, 0)
-      ELSE [tab |-> [data |-> [i \in 1 .. Cap(tb) |-> IF i <= w.lastI THEN FREE ELSE tb.data[i]],
+      ELSE [tab |-> [data |-> [i \in 1 .. Cap(tb) |-> IF i <= w.lastI \/ DrainAll THEN FREE ELSE tb.data[i]],
                      len |-> 0, free |-> Cap(tb), hung |-> FALSE],
             ev |-> Ev("drain", t, 0, 0, 0, {}, 0, "ok", 0, w.out, <<>>), sit |-> TrailSit(tb, w)]
 
